@@ -100,6 +100,7 @@ class TimeTriggerDecorator(TriggerDecorator):
             await self.dispatch(DispatchData({"trigger_type": "time", "trigger_time": "startup"}))
 
         first_run = True
+        last_time_next = None
         try:
             while self.dm.status is DecoratorManagerStatus.RUNNING:
                 if first_run:
@@ -107,6 +108,9 @@ class TimeTriggerDecorator(TriggerDecorator):
                     first_run = False
                 else:
                     now = dt_now()
+                    if last_time_next is not None and now < last_time_next:
+                        # we accept waking up to 1us early; don't compute the same trigger time again
+                        now = last_time_next
 
                 _LOGGER.debug("time_trigger now %s", now)
                 time_next, time_next_adj = await trigger.TrigTime.timer_trigger_next(
@@ -142,6 +146,7 @@ class TimeTriggerDecorator(TriggerDecorator):
                     _LOGGER.debug("%s additional sleep for %s seconds", self, timeout)
                     await asyncio.sleep(timeout)
 
+                last_time_next = time_next
                 await self.dispatch(DispatchData({"trigger_type": "time", "trigger_time": time_next}))
         except asyncio.CancelledError:
             raise
